@@ -227,6 +227,8 @@ inductive Op where
   | appStr (v : Str)               -- a+=v
   | unsetElem (i : Int)            -- unset 'a[i]'
   | unsetAll                       -- unset a
+  | readArr (vs : List Str)        -- read -a a   (fields already split)
+  | mapfile (vs : List Str)        -- mapfile -t a / readarray -t a   (lines already split)
   deriving DecidableEq, Repr
 
 /-- The element loop of `assignVal` ("Evaluate values for each array element").  A negative
@@ -321,6 +323,12 @@ def applyOp (v : Var) : Op → Res Var
     | .str => if i = 0 then .ok Var.zero else .ok v    -- only the literal subscript "0" deletes
     | .unknown => .ok v
   | .unsetAll => if v.set then .ok Var.zero else .ok v   -- builtin unset: `lookupVar(arg).IsSet()`
+  -- builtin read -a: `r.setVar(arrayName, expand.Variable{Set: true, Kind: Indexed, List: values})`,
+  -- a fresh variable: nil Indexes, empty Str
+  | .readArr vs => .ok ⟨.indexed, true, [], ⟨vs, none⟩⟩
+  -- builtin mapfile: `var vr expand.Variable; vr.Kind = Indexed; vr.List = append(…)`: also fresh,
+  -- but `Set` stays false
+  | .mapfile vs => .ok ⟨.indexed, false, [], ⟨vs, none⟩⟩
 
 def runOps (v : Var) : List Op → Res Var
   | [] => .ok v
@@ -377,6 +385,11 @@ def specLit (m : SMap) (index : Int) : List Elem → SMap
     if j < 0 then specLit m index rest
     else specLit (m.insert j v) (j + 1) rest
 
+/-- The map of a list whose elements sit at `s, s+1, …`. -/
+def enumFrom (s : Int) : List Str → SMap
+  | [] => []
+  | x :: xs => (s, x) :: enumFrom (s + 1) xs
+
 /-- The specification's view of a shell variable: bash distinguishes an unset variable, a scalar
     and an array (a scalar reads like the one-element array `{0 ↦ s}`, but `unset 's[i]'` and
     `s=v` treat it differently), so the map comes with that tag (`Kind.unknown` = unset,
@@ -414,6 +427,8 @@ def specOp (x : SVar) : Op → SVar
     | .str => if i = 0 then SVar.unset else x     -- "not an array variable" for any other subscript
     | .unknown => x
   | .unsetAll => SVar.unset
+  | .readArr vs => ⟨.indexed, enumFrom 0 vs⟩      -- the fields become elements 0, 1, 2, …
+  | .mapfile vs => ⟨.indexed, enumFrom 0 vs⟩
 
 def specRun (x : SVar) (ops : List Op) : SVar := ops.foldl specOp x
 
@@ -442,10 +457,6 @@ def specSlice (m : SMap) (offset length : Option Int) : Option (List Str) :=
 
 /-! ### Abstraction -/
 
-def enumFrom (s : Int) : List Str → SMap
-  | [] => []
-  | x :: xs => (s, x) :: enumFrom (s + 1) xs
-
 /-- The map an array representation stands for. -/
 def Arr.abs (a : Arr) : SMap :=
   match a.idx with
@@ -469,11 +480,35 @@ structure Arr.WF (a : Arr) : Prop where
   shape : ∀ ix, a.idx = some ix →
     ix.length = a.list.length ∧ Increasing ix ∧ (∀ k ∈ ix, 0 ≤ k) ∧ isIotaFrom 0 ix = false
 
-/-- Variables: the array part is well-formed, an unset variable carries no stale string (it is
-    the zero `expand.Variable`), and every scalar or array `IsSet()`. -/
+/-- Variables: the array part is well-formed, and an unset variable carries no stale string (it
+    is the zero `expand.Variable`). -/
 structure Var.WF (v : Var) : Prop where
   arr : v.arr.WF
   zero : v.kind = .unknown → v.str = []
-  isset : v.kind ≠ .unknown → v.set = true
+
+/-- Every scalar or array `IsSet()`.  All operations keep this except `mapfile`, which builds its
+    variable without `Set` (finding C33-mapfile-not-set). -/
+def Var.SetOK (v : Var) : Prop := v.kind ≠ .unknown → v.set = true
+
+/-! ### Where the code is known to differ from bash (the recorded finding), as a decidable side
+    condition on a run -/
+
+/-- `unset a` works only on a variable that `IsSet()`; an array freshly made by `mapfile` is not
+    (until a later assignment sets the flag), and the builtin silently leaves it alone. -/
+def opOK (v : Var) : Op → Bool
+  | .unsetAll => v.set || v.kind == .unknown
+  | _ => true
+
+def runOK (v : Var) : List Op → Bool
+  | [] => true
+  | op :: ops =>
+    opOK v op &&
+      match applyOp v op with
+      | .ok v' => runOK v' ops
+      | .panic => false
+
+def isMapfile : Op → Bool
+  | .mapfile _ => true
+  | _ => false
 
 end ShVerif.C33
